@@ -120,7 +120,10 @@ class AdvancedHTMLParser(HTMLParser):
         # Otherwise: return passed arg.
         # Return is tuple (root, isRoot)
         if root == 'root' or root == self.root:
-            return (self.root, True)
+            myRoot = self.root
+            # The invisible root tag which holds multiple root-level nodes is not an element of the document,
+            #   so it is searched below, but never matched itself
+            return (myRoot, bool(myRoot is None or isInvisibleRootTag(myRoot) is False))
         return (root, False)
 
     ######## Parsing #########
